@@ -47,6 +47,54 @@ type Case struct {
 	Points []int64 `json:"points,omitempty"`
 	// Reader: "" | lazy (lookup before the install, consume after) | racing (goroutines reading across the install)
 	Reader string `json:"reader,omitempty"`
+	// SaverBulk: large constant-filled values the saver holds before its history (kept symbolic so that case files stay small): tables
+	// bigger than what the snapshot writer ships in one piece
+	SaverBulk []BulkPut `json:"saver_bulk,omitempty"`
+}
+
+type BulkPut struct {
+	Key  string `json:"key"`
+	Fill byte   `json:"fill"`
+	N    int    `json:"n"`
+}
+
+// genBig: a saver table of 18-40 MiB (the sstable-stream format ships 16 MiB pieces, the checkpoint format several files), always with
+// Update calls between prepare and save that overwrite / delete / add keys all over the key space and move both indices.
+func genBig(t *rapid.T) Case {
+	pool := gen.NewPool(t, 2, 5, 64)
+	c := Case{
+		SaverType:      rapid.IntRange(0, 1).Draw(t, "saver"),
+		RecvType:       rapid.IntRange(0, 1).Draw(t, "recv"),
+		Saver:          genBatches(t, pool, "saver", 0, 2),
+		Recv:           genBatches(t, pool, "recv", 0, 2),
+		RecvSync:       rapid.Bool().Draw(t, "recvsync"),
+		SyncBeforeSave: rapid.Bool().Draw(t, "syncbeforesave"),
+	}
+	total, want := 0, rapid.IntRange(18, 40).Draw(t, "MiB")*1024*1024
+	for i := 0; total < want; i++ {
+		n := rapid.SampledFrom([]int{512 * 1024, 1024 * 1024, 2 * 1024 * 1024}).Draw(t, "bulksize")
+		total += n
+		c.SaverBulk = append(c.SaverBulk, BulkPut{Key: fmt.Sprintf("bulk%03d", i), Fill: byte('a' + i%26), N: n})
+	}
+	// between prepare and save: touch the first, a middle and the last bulk key, add keys before / after them, with leader indices
+	li := uint64(5000)
+	mk := func(cmd *regattapb.Command) []byte {
+		li++
+		x := li
+		cmd.Table, cmd.LeaderIndex = []byte("t"), &x
+		b, _ := cmd.MarshalVT()
+		return b
+	}
+	nb := len(c.SaverBulk)
+	c.Between = [][][]byte{
+		{mk(&regattapb.Command{Type: regattapb.Command_PUT, Kv: &regattapb.KeyValue{Key: []byte(c.SaverBulk[0].Key), Value: []byte("overwritten-after-prepare")}})},
+		{mk(&regattapb.Command{Type: regattapb.Command_DELETE, Kv: &regattapb.KeyValue{Key: []byte(c.SaverBulk[nb/2].Key)}}),
+			mk(&regattapb.Command{Type: regattapb.Command_PUT, Kv: &regattapb.KeyValue{Key: []byte("a-new-first-key"), Value: []byte("added-after-prepare")}})},
+		{mk(&regattapb.Command{Type: regattapb.Command_PUT, Kv: &regattapb.KeyValue{Key: []byte(c.SaverBulk[nb-1].Key), Value: []byte("overwritten-after-prepare")}}),
+			mk(&regattapb.Command{Type: regattapb.Command_PUT, Kv: &regattapb.KeyValue{Key: []byte("zz-new-last-key"), Value: []byte("added-after-prepare")}})},
+	}
+	c.Between = append(c.Between, genBatches(t, pool, "between", 0, 2)...)
+	return c
 }
 
 func genBatches(t *rapid.T, pool *gen.Pool, label string, minB, maxB int) [][][]byte {
@@ -207,6 +255,21 @@ func run(c Case, o *vt.Obs) *vt.Failure {
 		return vt.Failf(prop+"/open-error", 0, "%v", err)
 	}
 	defer func() { _ = saver.r.Close() }()
+	if len(c.SaverBulk) > 0 {
+		var bulk [][][]byte
+		for i, b := range c.SaverBulk {
+			li := uint64(100 + i)
+			x, _ := (&regattapb.Command{Table: []byte("t"), Type: regattapb.Command_PUT, LeaderIndex: &li, Kv: &regattapb.KeyValue{Key: []byte(b.Key), Value: bytes.Repeat([]byte{b.Fill}, b.N)}}).MarshalVT()
+			if i%4 == 0 {
+				bulk = append(bulk, nil)
+			}
+			bulk[len(bulk)-1] = append(bulk[len(bulk)-1], x)
+		}
+		if err := saver.apply(bulk); err != nil {
+			return vt.Failf(prop+"/apply-error", 0, "saver (bulk): %v", err)
+		}
+		o.Label("saver-table-larger-than-one-shipped-piece")
+	}
 	if err := saver.apply(c.Saver); err != nil {
 		return vt.Failf(prop+"/apply-error", 0, "saver: %v", err)
 	}
@@ -482,7 +545,7 @@ func run(c Case, o *vt.Obs) *vt.Failure {
 	if len(c.Recv) > 0 {
 		o.Label("receiver-had-own-state")
 	}
-	if len(c.Between) > 0 && (c.SaverType != c.RecvType || c.Interrupt != "") {
+	if len(c.Between) > 0 && (c.SaverType != c.RecvType || c.Interrupt != "" || len(c.SaverBulk) > 0) {
 		o.NonTrivial = true
 	}
 	o.Describe = func() string { return describe(c) }
@@ -616,3 +679,7 @@ func describe(c Case) string {
 func TestC08(t *testing.T)        { vt.Check(t, prop, genCase, run) }
 func TestC08Replay(t *testing.T)  { vt.Replay(t, prop, run) }
 func TestC08Regress(t *testing.T) { vt.Regress(t, prop, "testdata", run) }
+
+func TestC08Big(t *testing.T)        { vt.Check(t, prop, genBig, run) }
+func TestC08BigReplay(t *testing.T)  { vt.Replay(t, prop, run) }
+func TestC08BigRegress(t *testing.T) { vt.Regress(t, prop, "testdata", run) }
